@@ -57,7 +57,7 @@ for pid, why in sorted(pending.items()):
 m = {"version": 1, "setup_cmd": "bin/setup",
      "hooks": {"guard": "verif", "enable": "go build -tags verif (harness module /verif/harness with replace => /repo)",
                "baseline_off_cmd": "cd /repo && GOFLAGS=-mod=mod GOPROXY=off go test -json -vet=off -count=1 -timeout 25m ./...",
-               "source_commits": ["6f9a244", "6881ff5"], "add_only": True},
+               "source_commits": ["6f9a244", "6881ff5", "4e1e494", "302dff0"], "add_only": True},
      "engines": [{"name": "tlc+go-harness", "path": "bin/check", "serves_properties": sorted(claimed),
                   "kind_free_text": "TLA+ specifications in specs/ checked by TLC; Go harness in harness/ drives the real engine and records NDJSON histories/observations that TLC validates against the specifications"}],
      "checks": checks, "not_applicable": na,
